@@ -577,7 +577,7 @@ pub fn unit_fmt1(o: &mut Out, tier: &str, r: &mut Rng) {
     }
 }
 
-/// the real `Qibla::to_string()` against the model's text of the implementation's own `degrees()` bits
+/// the real `Qibla::to_string()` (its number and its label) against the model's text of the implementation's own `degrees()` bits
 /// (the angle itself is compared by unit `qibla`)
 pub fn unit_qtext(o: &mut Out, tier: &str, r: &mut Rng) {
     let n = sizes(tier, 3000, 100000);
@@ -600,7 +600,12 @@ pub fn unit_qtext(o: &mut Out, tier: &str, r: &mut Rng) {
         );
         let q = Qibla::new(c);
         if seen.insert(q.degrees().to_bits()) {
-            o.case(format!("qtext {:016x}", q.degrees().to_bits()), hexstr(&q.to_string()));
+            // canonical projection of the printed text: its first number and its label (spacing, the
+            // degree sign or added words are layout, which the property does not fix)
+            let s = q.to_string();
+            let num: String = s.chars().skip_while(|c| !c.is_ascii_digit()).take_while(|c| c.is_ascii_digit() || *c == '.').collect();
+            let label = if s.contains("CCW") { "CCW" } else if s.contains("CW") { "CW" } else { "?" };
+            o.case(format!("qtext {:016x}", q.degrees().to_bits()), format!("{} {}", num, label));
         }
     }
 }
